@@ -27,8 +27,9 @@ def setp(d, path, v):
         cur[ks[-1]] = v
 
 
-def yaml_of(d):
-    return 'a: %s\ns: %s\no:\n  x: %s\nflag: %s\n' % (d['a'], d['s'], d['o']['x'], str(d['flag']).lower())
+def yaml_of(d, skip=()):
+    ls = [('a', 'a: %s' % d['a']), ('s', 's: %s' % d['s']), ('o.x', 'o:\n  x: %s' % d['o']['x']), ('flag', 'flag: %s' % str(d['flag']).lower())]
+    return ''.join(l + '\n' for k, l in ls if k not in skip)
 
 
 NEWVALS = [7, 'changed', 'é', 'x"y', 123456, 'a much longer value than before', '', None, 1585369512231022593, 1585369512231022594, 1.0, False]
@@ -40,14 +41,24 @@ def make_world(g, tag):
     leaves, base = (YLEAVES, YBASE) if kind == 'yaml' else (LEAVES, BASE)
     masked = r.sample(leaves, r.randint(1, 3))
     changed = r.sample(leaves, r.randint(1, 2)) if r.random() < 0.8 else []
+    if r.random() < 0.35:
+        # the interesting half of the property: the variants differ at masked paths only
+        changed = r.sample(masked, r.randint(1, len(masked)))
     a, b = copy.deepcopy(base), copy.deepcopy(base)
     def getp(d, path):
         cur = d
         for k in path.split('.'):
             cur = cur[int(k)] if isinstance(cur, list) else cur[k]
         return cur
+    NUMERIC_TWINS = {'a': 1.0, 'big': 1585369512231022594, 'o.y.0': 1.0}
+    if kind != 'yaml' and r.random() < 0.08:
+        # a change that is invisible to a float64 comparison: 1 -> 1.0, or an integer beyond 2^53 by one
+        changed = [r.choice(sorted(NUMERIC_TWINS))]
     for p in changed:
         old = getp(b, p)
+        if kind != 'yaml' and p in NUMERIC_TWINS and r.random() < 0.5:
+            setp(b, p, NUMERIC_TWINS[p])
+            continue
         cands = [v for v in (NEWVALS if kind != 'yaml' else ['changed', 'other', 'z9'])
                  if not (v == old and type(v) == type(old))]
         setp(b, p, r.choice(cands))
@@ -61,14 +72,20 @@ def make_world(g, tag):
             tb += '---\nsecond: %s\n' % other
             if other == 'changed':
                 only_masked = False
-        mt = docs.any_matcher(['$.' + p for p in masked], r.choice([None, '"MASK"']))
+        ylenient = r.random() < 0.4
+        mt = docs.any_matcher(['$.' + p for p in masked], r.choice([None, '"MASK"']), not ylenient)
+        if r.random() < 0.3:
+            mt = ' '.join(docs.maybe_wrap(r, [mt], 0.7))
     else:
         ta, tb = g.json_text(a), g.json_text(b)
         # mix the three matcher kinds over the masked paths
         mts = []
-        if r.random() < 0.3:
-            # one matcher, several paths, a missing one first, missing paths ignored
-            mts.append(docs.any_matcher(['not.there'] + masked, r.choice([None, '"MASK"']), False))
+        if r.random() < 0.35:
+            # one matcher, several paths, missing paths ignored; a path that never exists leads, ends or
+            # sits in the middle of the list
+            paths = list(masked)
+            paths.insert(r.randint(0, len(paths)), 'not.there')
+            mts.append(docs.any_matcher(paths, r.choice([None, '"MASK"']), False))
             masked_iter = []
         else:
             masked_iter = masked
@@ -82,12 +99,47 @@ def make_world(g, tag):
                 mts.append(docs.any_matcher([p], r.choice([None, '"é"', '"x\\"y"', '"MASK"', 'null'])))
             else:
                 mts.append(docs.custom_matcher(p, True, '"custom placeholder"'))
-        mt = ' '.join(mts)
+        # user-defined matchers: the built-in ones grouped in a composite (which reports success as an
+        # empty non-nil slice or as nil), inspecting matchers in between
+        mt = ' '.join(docs.maybe_wrap(r, mts, 0.3))
     w = World(tag)
     w.add(mode_line(False, ''))
     w.add(cfg_line(1, 'snaps', None, None, 'none'))
+    fa = fb = 's'
+    if kind == 'yaml':
+        fa, fb = r.choice(['s', 'b']), r.choice(['s', 'b'])
+    else:
+        # the three input forms; a Go value goes through float64, which cannot tell the two big integers apart
+        # (nor 1 from 1.0: both variants are then passed as Go values or neither is)
+        fa, fb = r.choice(['s', 'b']), r.choice(['s', 'b'])
+        if 'big' not in changed and not any(isinstance(getp(b, p), float) for p in changed) and r.random() < 0.25:
+            fa = fb = 'v'
+    if kind != 'yaml' and r.random() < (0.7 if len(mts) == 1 and mts[0].startswith('A;0') else 0.4):
+        # the SAME matcher values are first used by another test whose document lacks some of the masked
+        # members (an older record, a freshly created object): what they saw there must not matter later
+        c = copy.deepcopy(a)
+        gone = [p for p in masked if r.random() < 0.6] or [masked[0]]
+        for p in gone:
+            ks = p.split('.')
+            cur = c
+            try:
+                for k in ks[:-1]:
+                    cur = cur[int(k)] if isinstance(cur, list) else cur[k]
+                if isinstance(cur, dict):
+                    cur.pop(ks[-1], None)
+            except (KeyError, IndexError, ValueError, TypeError):
+                pass
+        w.add('begin 3 %s' % hx(b'TestFresh'))
+        w.add('%s 1 3 %s %s %s' % ('json' if kind == 'sajson' and r.random() < 0.5 else kind, r.choice(['s', 'b']), hx(g.json_text(c)), mt))
+        w.add('end 3')
+    if kind == 'yaml' and ylenient and len(masked) > 1:
+        # YAML: the same lenient matcher value first sees a document without some of its paths
+        gone = [p for p in masked[:-1] if r.random() < 0.7] or [masked[0]]
+        w.add('begin 3 %s' % hx(b'TestFresh'))
+        w.add('yaml 1 3 %s %s %s' % (r.choice(['s', 'b']), hx(yaml_of(a, gone)), mt))
+        w.add('end 3')
     w.add('begin 1 %s' % hx(b'TestMask'))
-    rec = w.add('%s 1 1 s %s %s' % (kind, hx(ta), mt))
+    rec = w.add('%s 1 1 %s %s %s' % (kind, fa, hx(ta), mt))
     w.add('end 1')
     w.add('reset')
     w.add(mode_line(r.choice([True, False]), ''))
@@ -101,13 +153,14 @@ def make_world(g, tag):
             return ('variants differing only at masked paths %r must pass against each other: %s' % (changed, m)) if m else None
         m = exp_one_error_no_write(line, raw, ww)
         return ('variants differing at an unmasked path (changed %r, masked %r) must not pass: %s' % (changed, masked, m)) if m else None
-    w.add('%s 1 2 s %s %s' % (kind, hx(tb), mt), ('masked-irrelevant-unmasked-relevant', exp))
+    w.add('%s 1 2 %s %s %s' % (kind, fb, hx(tb), mt), ('masked-irrelevant-unmasked-relevant', exp))
     w.add('end 2')
     return w
 
 
 def run(ctx):
     g = Gen(ctx.seed * 1000003 + 16)
+    docs.STYLE = g.r
     n = 400 if ctx.tier == 'quick' else 10000
     worlds = [make_world(g, 'c16-%d' % i) for i in range(n)]
     run_suite(ctx, 'match.masking', worlds, known=None, chunk=500)
